@@ -307,7 +307,16 @@ func main() {
 	tier := flag.String("tier", "quick", "tier")
 	_ = flag.String("replay", "", "unused: cases are regenerated from the seed")
 	stage := flag.String("stage", "layers", "layers|layerfile|bytes|e2e")
+	fault := flag.String("fault", "", "layerfile-child: the fault case (JSON)")
+	faultOut := flag.String("fault-out", "", "layerfile-child: the output path")
 	flag.Parse()
+	if *stage == "layerfile-child" {
+		if err := layerfileChild(*fault, *faultOut); err != nil {
+			fmt.Fprintln(os.Stderr, "c06:", err)
+			os.Exit(2)
+		}
+		return
+	}
 	if *stage == "e2e" {
 		if err := e2eStage(*out, *seed, *tier); err != nil {
 			fmt.Fprintln(os.Stderr, "c06:", err)
